@@ -51,7 +51,7 @@ func main() {
 		_ = res.Write(f.Out)
 		return
 	}
-	res.Extra["table"] = map[string]any{"rows": len(tbl.Rows), "fields": len(tbl.Fields), "locks": tbl.Locks, "tracked_types": tbl.Types, "chans": tbl.Chans}
+	res.Extra["table"] = map[string]any{"rows": len(tbl.Rows), "fields": len(tbl.Fields), "locks": tbl.Locks, "tracked_types": tbl.Types, "chans": tbl.Chans, "shared_globals": tbl.Notes}
 	drv, err := lib.StartDriver(f.Driver)
 	if err != nil {
 		lib.Fatal(err)
